@@ -85,7 +85,7 @@ ParPairs(lay, flt) ==
 TextPairs(lay, flt, o) ==
   (IF IsV3(lay.ver)
    THEN << <<A_BEGINANALYSIS, ZPad(IF lay.an = "text" THEN o.ab ELSE 0, 8)>>, <<A_ENDANALYSIS, ZPad(IF lay.an = "text" THEN o.ae ELSE 0, 8)>>,
-           <<A_BEGINSTEXT, ZPad(o.sb, 8)>>, <<A_ENDSTEXT, ZPad(o.se, 8)>>,
+           <<A_BEGINSTEXT, ZPad(FV(flt, "t_sb", o.sb), 8)>>, <<A_ENDSTEXT, ZPad(FV(flt, "t_se", o.se), 8)>>,
            <<A_BEGINDATA, ZPad(FV(flt, "t_db", o.db), 8)>>, <<A_ENDDATA, ZPad(FV(flt, "t_de", o.de), 8)>> >>
    ELSE <<>>)
   \o << <<A_BYTEORD, BoStr(lay.bo)>>, <<A_DATATYPE, OneChar(lay.dt)>>, <<A_MODE, OneChar(lay.mode)>>,
